@@ -27,22 +27,61 @@ type step struct {
 type obs struct {
 	val   string   // lisp.Show of the value ("" when err)
 	trace []string // (tr k v) keys logged during the step
+	outs  []string // values handed to (c08-out v) during the step
 	err   *lisp.Err
+}
+
+var outLog []string
+
+type outFunc struct {
+	slip.Function
+}
+
+// Call (c08-out v): records the rendered value on the Go side, returns v.
+func (f *outFunc) Call(s *slip.Scope, args slip.List, depth int) slip.Object {
+	if len(args) != 1 {
+		panic(fmt.Sprintf("harness: c08-out called with %d arguments", len(args)))
+	}
+	outLog = append(outLog, lisp.Show(args[0]))
+	return args[0]
+}
+
+func init() {
+	slip.Define(
+		func(args slip.List) slip.Object {
+			f := outFunc{Function: slip.Function{Name: "c08-out", Args: args}}
+			f.Self = &f
+			return &f
+		},
+		&slip.FuncDoc{
+			Name:   "c08-out",
+			Args:   []*slip.DocArg{{Name: "value", Type: "object"}},
+			Return: "object",
+			Text:   "harness: records value, returns it",
+		}, &slip.UserPkg)
+}
+
+func (o obs) tail() string {
+	s := " trace=" + strings.Join(o.trace, ",")
+	if 0 < len(o.outs) {
+		s += " out=" + strings.Join(o.outs, ",")
+	}
+	return s
 }
 
 func (o obs) String() string {
 	if o.err != nil {
-		return "ERR[" + o.err.Class + ": " + o.err.Message + "] trace=" + strings.Join(o.trace, ",")
+		return "ERR[" + o.err.Class + ": " + o.err.Message + "]" + o.tail()
 	}
-	return o.val + " trace=" + strings.Join(o.trace, ",")
+	return o.val + o.tail()
 }
 
 // digest without messages (unique names would otherwise leak into outcomes).
 func (o obs) digest() string {
 	if o.err != nil {
-		return "ERR[" + o.err.Class + "] trace=" + strings.Join(o.trace, ",")
+		return "ERR[" + o.err.Class + "]" + o.tail()
 	}
-	return o.val + " trace=" + strings.Join(o.trace, ",")
+	return o.val + o.tail()
 }
 
 type machine struct {
@@ -55,12 +94,13 @@ func newMachine() *machine {
 	return &machine{scope: slip.NewScope(), slots: map[int]slip.Code{}}
 }
 
-// do applies one step. R and C return an obs only when they fail.
+// do applies one step. R returns an obs only when it fails.
 func (m *machine) do(st step) (o obs, observed bool) {
 	lisp.ResetTrace()
+	outLog = nil
 	defer func() {
 		if rec := recover(); rec != nil {
-			o = obs{err: lisp.ErrFromRecovered(rec), trace: lisp.Trace()}
+			o = obs{err: lisp.ErrFromRecovered(rec), trace: lisp.Trace(), outs: outLog}
 			observed = true
 		}
 	}()
@@ -70,19 +110,19 @@ func (m *machine) do(st step) (o obs, observed bool) {
 		return obs{}, false
 	case 'C':
 		m.slots[st.slot].Compile()
-		return obs{}, false
+		return obs{val: "compiled", trace: lisp.Trace(), outs: outLog}, true
 	case 'E':
 		code, has := m.slots[st.slot]
 		if !has {
 			panic(fmt.Sprintf("harness: slot %d empty", st.slot))
 		}
 		v := code.Eval(m.scope, nil)
-		return obs{val: lisp.Show(v), trace: lisp.Trace()}, true
+		return obs{val: lisp.Show(v), trace: lisp.Trace(), outs: outLog}, true
 	case 'L':
 		m.scope.Let(slip.Symbol("c08-load-stream"), slip.NewStringStream([]byte(st.src)))
 		code := slip.ReadString("(load c08-load-stream)", m.scope)
 		v := code.Eval(m.scope, nil)
-		return obs{val: lisp.Show(v), trace: lisp.Trace()}, true
+		return obs{val: lisp.Show(v), trace: lisp.Trace(), outs: outLog}, true
 	}
 	panic("harness: bad step")
 }
